@@ -122,6 +122,8 @@ func challengerOps() []chOp {
 	}
 }
 
+var sawMismatch bool
+
 func runC11(r *Run) {
 	r.Functions = []string{"challenger.(*Chip).{ObserveElement,ObserveElements,ObserveHash,ObserveBN254Hash,ObserveCap,ObserveExtensionElement,ObserveExtensionElements,ObserveOpenings,GetChallenge,GetNChallenges,GetExtensionChallenge,GetHash,GetFriChallenges,duplexing}", "verifier.(*VerifierChip).GetChallenges", "fri.(*Chip).ToOpenings", "verifier.(*VerifierChip).GetPublicInputsHash"}
 	kb, err := ref.LoadBN128Consts(filepath.Join(r.Repo, "crypto/plonky2_bn128/src/poseidon_bn128_constants.rs"))
@@ -142,65 +144,83 @@ func runC11(r *Run) {
 			for _, op := range challengerOps() {
 				inLen, outLen, op := inLen, outLen, op
 				name := fmt.Sprintf("step[in=%d,out=%d] %s", inLen, outLen, op.name)
-				c := fieldCase{name: name, bound: fmt.Sprintf("arbitrary sponge state, %d buffered inputs, %d buffered outputs (all symbolic), permutation and hash chunking uninterpreted", inLen, outLen), build: func(fc *fctx) ([]frontend.Variable, []*ref.N) {
-					ch := challenger.NewChip(fc.api)
-					perm := fc.rb.GLPermUF()
-					rc := ref.NewChallenger(fc.rb, perm, fc.rb.ChunkUF)
-					st := fieldOf[poseidon.GoldilocksState](ch, "spongeState")
-					for i := range st {
-						st[i], rc.State[i] = fc.glIn(fmt.Sprintf("st%d", i))
-					}
-					ib := fieldOf[[]gl.Variable](ch, "inputBuffer")
-					ob := fieldOf[[]gl.Variable](ch, "outputBuffer")
-					*ib, *ob = nil, nil
-					for i := 0; i < inLen; i++ {
-						v, rv := fc.glIn(fmt.Sprintf("ib%d", i))
-						*ib = append(*ib, v)
-						rc.In = append(rc.In, rv)
-					}
-					for i := 0; i < outLen; i++ {
-						v, rv := fc.glIn(fmt.Sprintf("ob%d", i))
-						*ob = append(*ob, v)
-						// while inputs are pending the buffered outputs can never be used again: the
-						// reference (which clears them on observe) is compared from its own canonical
-						// form, the implementation from ANY leftover contents
-						if inLen == 0 {
-							rc.Out = append(rc.Out, rv)
+				mk := func(mode int, name string) fieldCase {
+					return fieldCase{name: name, bound: fmt.Sprintf("arbitrary sponge state, %d buffered inputs, %d buffered outputs (all symbolic), permutation and hash chunking uninterpreted", inLen, outLen), build: func(fc *fctx) ([]frontend.Variable, []*ref.N) {
+						ch := challenger.NewChip(fc.api)
+						perm := fc.rb.GLPermUF()
+						rc := ref.NewChallenger(fc.rb, perm, fc.rb.ChunkUF)
+						st := fieldOf[poseidon.GoldilocksState](ch, "spongeState")
+						for i := range st {
+							st[i], rc.State[i] = fc.glIn(fmt.Sprintf("st%d", i))
 						}
-					}
-					outs, refs := op.run(fc, ch, rc)
-					// resulting state
-					pending := len(*ib) > 0
-					if len(*ib) != len(rc.In) || (!pending && len(*ob) != len(rc.Out)) {
-						// the internal states have different shapes: make the difference observable by
-						// drawing challenges from both (a functional disagreement is then replayed)
-						lenMismatch = append(lenMismatch, fmt.Sprintf("%s: buffers %d/%d, reference %d/%d", name, len(*ib), len(*ob), len(rc.In), len(rc.Out)))
-						for i := 0; i < 9; i++ {
-							outs = append(outs, ch.GetChallenge().Limb)
-							refs = append(refs, rc.GetChallenge())
+						ib := fieldOf[[]gl.Variable](ch, "inputBuffer")
+						ob := fieldOf[[]gl.Variable](ch, "outputBuffer")
+						*ib, *ob = nil, nil
+						for i := 0; i < inLen; i++ {
+							v, rv := fc.glIn(fmt.Sprintf("ib%d", i))
+							*ib = append(*ib, v)
+							rc.In = append(rc.In, rv)
+						}
+						for i := 0; i < outLen; i++ {
+							v, rv := fc.glIn(fmt.Sprintf("ob%d", i))
+							*ob = append(*ob, v)
+							// while inputs are pending the buffered outputs can never be used again: the
+							// reference (which clears them on observe) is compared from its own canonical
+							// form, the implementation from ANY leftover contents
+							if inLen == 0 {
+								rc.Out = append(rc.Out, rv)
+							}
+						}
+						outs, refs := op.run(fc, ch, rc)
+						// resulting state
+						pending := len(*ib) > 0
+						if len(*ib) != len(rc.In) || (!pending && len(*ob) != len(rc.Out)) {
+							// the internal states have different shapes: make the difference observable by
+							// drawing challenges from both (a functional disagreement is then replayed)
+							lenMismatch = append(lenMismatch, fmt.Sprintf("%s: buffers %d/%d, reference %d/%d", name, len(*ib), len(*ob), len(rc.In), len(rc.Out)))
+							sawMismatch = true
+							if mode == 0 {
+								for i := 0; i < 9; i++ {
+									outs = append(outs, ch.GetChallenge().Limb)
+									refs = append(refs, rc.GetChallenge())
+								}
+							} else {
+								pe, rpe := fc.glIn("probe")
+								ch.ObserveElement(pe)
+								rc.ObserveElement(rpe)
+								for i := 0; i < 9; i++ {
+									outs = append(outs, ch.GetChallenge().Limb)
+									refs = append(refs, rc.GetChallenge())
+								}
+							}
+							return outs, refs
+						}
+						if len(*ib) > 7 {
+							lenMismatch = append(lenMismatch, fmt.Sprintf("%s: input buffer of length %d left behind (invariant len <= 7 broken)", name, len(*ib)))
+						}
+						for i := range st {
+							outs = append(outs, st[i].Limb)
+							refs = append(refs, rc.State[i])
+						}
+						for i := range *ib {
+							outs = append(outs, (*ib)[i].Limb)
+							refs = append(refs, rc.In[i])
+						}
+						if !pending {
+							for i := range *ob {
+								outs = append(outs, (*ob)[i].Limb)
+								refs = append(refs, rc.Out[i])
+							}
 						}
 						return outs, refs
-					}
-					if len(*ib) > 7 {
-						lenMismatch = append(lenMismatch, fmt.Sprintf("%s: input buffer of length %d left behind (invariant len <= 7 broken)", name, len(*ib)))
-					}
-					for i := range st {
-						outs = append(outs, st[i].Limb)
-						refs = append(refs, rc.State[i])
-					}
-					for i := range *ib {
-						outs = append(outs, (*ib)[i].Limb)
-						refs = append(refs, rc.In[i])
-					}
-					if !pending {
-						for i := range *ob {
-							outs = append(outs, (*ob)[i].Limb)
-							refs = append(refs, rc.Out[i])
-						}
-					}
-					return outs, refs
-				}}
-				q := runFieldCase(r, "challenger-step", c, hooks)
+					}}
+				}
+				sawMismatch = false
+				q := runFieldCase(r, "challenger-step", mk(0, name), hooks)
+				if sawMismatch {
+					// second probe: observe first, then draw (exposes a state that was permuted too early)
+					runFieldCase(r, "challenger-step", mk(1, name+" (probe: observe then draw)"), hooks)
+				}
 				nCases++
 				if q != nil && len(stats) < 2 {
 					stats = append(stats, q.stats())
@@ -210,7 +230,7 @@ func runC11(r *Run) {
 		}
 	}
 	for _, m := range lenMismatch {
-		r.Note("challenger state shape differs from the reference (probed by drawing 9 challenges): %s", m)
+		r.Note("challenger state shape differs from the reference (probed twice: by drawing 9 challenges, and by observing one more element and then drawing 9 challenges): %s", m)
 	}
 	for _, s := range stats {
 		r.Sample(s)
